@@ -117,6 +117,28 @@ theorem rowOk_of_netFeasible (M : List (List K)) (lims c s : List K) (vt rt : K)
       exact ⟨i, by simp [hi, hi'], by simp⟩
     exact h1 _ hmem
 
+/-- `netFeasible` is exactly "every row, every period" (the converse of `rowOk_of_netFeasible`) -/
+theorem netFeasible_iff (M : List (List K)) (lims c s : List K) (vt rt : K) (S : List (List K))
+    (hne : 0 < lims.length) (hlen : M.length = lims.length) :
+    netFeasible M lims c s vt rt S = true ↔
+      ∀ t, t < periods S → ∀ i (hi : i < M.length) (hi' : i < lims.length),
+        rowOk (M[i]) (lims[i]) vt rt c s (col S t) = true := by
+  constructor
+  · intro h t ht i hi hi'
+    exact rowOk_of_netFeasible M lims c s vt rt S h t ht i hi hi'
+  · intro h
+    unfold netFeasible
+    split
+    · rfl
+    · rw [List.all_eq_true]
+      intro t ht
+      rw [List.all_eq_true]
+      intro p hp
+      obtain ⟨i, hi, rfl⟩ := List.mem_iff_getElem.mp hp
+      have hi1 : i < M.length := by simp at hi; omega
+      have hi2 : i < lims.length := by simp at hi; omega
+      simpa using h t (List.mem_range.mp ht) i hi1 hi2
+
 theorem length_col (S : List (List K)) (t : Nat) : (col S t).length = S.length := by
   unfold col; simp
 
